@@ -498,7 +498,7 @@ FAMILIES = [dict(name='cpcbig', harness='drv_cpc.cpp', extract=None, model=None,
 FAMILIES = FAMILIES[1:] + FAMILIES[:1]
 
 MANIFEST = dict(
-    level_text=('PROVED in Coq (coq/Properties_C05.v, 18 theorems, axiom-free, for EVERY lg_k, seed and sequence of (row,col) pairs, i.e. for arbitrary hash '
+    level_text=('PROVED in Coq (coq/Properties_C05.v, 23 theorems, axiom-free, for EVERY lg_k, seed and sequence of (row,col) pairs, i.e. for arbitrary hash '
                 'functions; partial correctness: whenever the model returns a result, i.e. the code neither throws nor runs into UB): '
                 '(1) u32_table (linear probing, growth/shrink rebuild, delete by re-insertion) refines a finite set for any sequence of inserts/deletes, returns exact '
                 'novelty flags, never stores an item twice, counts correctly; (2) after any update sequence build_bit_matrix(sketch) = the matrix with exactly the offered '
@@ -511,9 +511,13 @@ MANIFEST = dict(
                 'its 11 / max(0,10-B) bits of padding, low_level_compress/uncompress_bytes, write/read_unary, low_level_compress/uncompress_pairs (x-delta Huffman, y-delta '
                 'Golomb), compress/uncompress_surprising_values and compress/uncompress_sliding_window are modelled and proved to round-trip for ALL inputs, never to over-read, '
                 'and to stay within safe_length_for_compressed_pair_buf / _window_buf; with 64-bit thresholds a SLIDING sketch always gets a phase < 16. '
-                'CORRESPONDENCE ONLY (model = code on generated scripts, and property predicates evaluated on the implementation): the union (cases A-D, reduce_k, '
-                'walk_table_updating_sketch, get_result: result lg_k = min over union and non-empty inputs, matrix = OR of row-folded inputs, order independence) is modelled and '
-                'compared in all input orders but its theorem is not proved; the per-flavor composition compress()/uncompress() (pair sorting, hybrid merge, -8 shift, column '
+                '(4) UNION: for every sequence of inputs of any flavor and any lg_k <= 26 in any order (cases A-D, reduce_k incl. the empty accumulator that keeps its old lg_k, '
+                'walk_table_updating_sketch with its odd golden-ratio stride visiting every slot, or_*_into_matrix, switch_to_bit_matrix, get_result from accumulator or bit matrix): '
+                'result lg_k = min over the union and the NON-EMPTY inputs; build_bit_matrix(result) = matrix of the inputs\' coupons with rows folded modulo 2^lg_k (= OR of the folded '
+                'input matrices, stated bitwise); num_coupons = its popcount; the result again satisfies the sketch invariant (so it can be updated or fed to another union); '
+                'independent of the order of the inputs (C05_union_perm). Side condition: the result offset is <= 56 (i.e. fewer than 59.4K of 64K coupons). '
+                'CORRESPONDENCE ONLY (model = code on generated scripts, and property predicates evaluated on the implementation): '
+                'the per-flavor composition compress()/uncompress() (pair sorting, hybrid merge, -8 shift, column '
                 'rotation+permutation) is modelled and its output words are compared with the implementation\'s for every flavor but the end-to-end '
                 'uncompress(compress s) = s theorem is not assembled; serialize->deserialize is additionally checked on the implementation (bytes = stream, re-serialization '
                 'identical, estimates/bounds/kxp/HIP bit-identical, deserialized state identical incl. deserialize-then-continue); merged-form estimate is a function of (lg_k, C).'),
